@@ -518,6 +518,7 @@ type c16Event struct {
 
 func c16Run(t *testing.T, cfg c16Cfg, c *vsched.Chooser) vsched.Outcome {
 	var out vsched.Outcome
+	var stopErr error
 	w := &c16World{cfg: cfg}
 	p := vfBubble(t, func() {
 		ctx := context.Background()
@@ -878,15 +879,22 @@ func c16Run(t *testing.T, cfg c16Cfg, c *vsched.Chooser) vsched.Outcome {
 		}
 		vfSettle()
 		if err := vfStopSystem(sys); err != nil && !errors.Is(err, context.Canceled) {
-			panic(err)
+			stopErr = err
 		}
 	})
 	w.mu.Lock()
 	out.Violations = append(out.Violations, w.viol...)
 	evs := strings.Join(w.events, " ")
 	w.mu.Unlock()
-	if p != nil {
-		out.Invalid = fmt.Sprintf("panic in execution: %v (events %s)", p, evs)
+	// An execution whose teardown failed or that panicked is no verdict - unless the oracle had already
+	// found a violation (evaluated at quiescence, before the teardown): that one stands (the explorer
+	// re-executes it before reporting).
+	if len(out.Violations) == 0 {
+		if p != nil {
+			out.Invalid = fmt.Sprintf("panic in execution: %v (events %s)", p, evs)
+		} else if stopErr != nil {
+			out.Invalid = fmt.Sprintf("system stop failed: %v (events %s)", stopErr, evs)
+		}
 	}
 	return out
 }
@@ -961,15 +969,40 @@ func TestVerifC16(t *testing.T) {
 			mk("grainreq-allowall-call1stash-cancelturn"+sfx, A, 0, hold, gr, func(c *c16Cfg) { c.override[1] = 2; c.cancelTurn = true }),
 		)
 	}
-	var scs []vsched.Scenario
+	// The configurations are grouped into four exploration scenarios (the configuration is the first
+	// choice of an execution), smallest group first: ExploreAll gives every scenario an equal share of
+	// the remaining budget, which would starve 48 separate scenarios under load.
+	groupOf := func(c c16Cfg) string {
+		n := "c16-actor"
+		if c.grainReq {
+			n = "c16-grain"
+		}
+		if c.hold {
+			n += "-hold"
+		}
+		return n
+	}
+	groups := map[string][]c16Cfg{}
 	for _, cfg := range cfgs {
-		cfg := cfg
+		groups[groupOf(cfg)] = append(groups[groupOf(cfg)], cfg)
+	}
+	var scs []vsched.Scenario
+	for _, name := range []string{"c16-grain", "c16-grain-hold", "c16-actor", "c16-actor-hold"} {
+		g := groups[name]
+		var members []map[string]any
+		for _, cfg := range g {
+			members = append(members, map[string]any{"config": cfg.name, "maxInFlight": cfg.maxInFlight, "nReq": cfg.nReq, "nMsg": cfg.nMsg,
+				"default_mode": mode[cfg.defMode], "override": fmt.Sprint(cfg.override[:cfg.nReq]), "api": fmt.Sprint(cfg.api[:cfg.nReq]),
+				"cancel_in_turn": cfg.cancelTurn, "late_then": cfg.lateThen, "client_shutdown": cfg.clientStop, "timeouts_reversed": cfg.tmoRev, "burst": cfg.burst})
+		}
 		scs = append(scs, vsched.Scenario{
-			Cfg: vsched.Config{Scenario: "c16-" + cfg.name, Bound: cfg.bound, SplitDepth: 2,
-				Params: map[string]any{"horizon": cfg.horizon, "maxInFlight": cfg.maxInFlight, "nReq": cfg.nReq, "nMsg": cfg.nMsg, "hold": cfg.hold,
-					"default_mode": mode[cfg.defMode], "override": fmt.Sprint(cfg.override[:cfg.nReq]), "api": fmt.Sprint(cfg.api[:cfg.nReq]),
-					"cancel_in_turn": cfg.cancelTurn, "late_then": cfg.lateThen, "client_shutdown": cfg.clientStop, "timeouts_reversed": cfg.tmoRev, "burst": cfg.burst, "requester": map[bool]string{false: "actor", true: "grain"}[cfg.grainReq]}},
-			Run: func(c *vsched.Chooser) vsched.Outcome { return c16Run(t, cfg, c) },
+			Cfg: vsched.Config{Scenario: name, Bound: vsched.Pick(1, 2), SplitDepth: 2,
+				Params: map[string]any{"horizon": vsched.Pick(6, 9), "hold": strings.HasSuffix(name, "-hold"),
+					"requester": map[bool]string{false: "actor", true: "grain"}[strings.Contains(name, "grain")], "configs": members}},
+			Run: func(c *vsched.Chooser) vsched.Outcome {
+				i := c.Choose("config", len(g), nil, func(i int) string { return g[i].name })
+				return c16Run(t, g[i], c)
+			},
 		})
 	}
 	vsched.ExploreAll(scs)
